@@ -13,8 +13,9 @@ import (
 // splitmix64: every random choice of the harness derives from one state
 type rng struct {
 	s         uint64
-	tsSeconds bool // generate BSON timestamps with non-zero seconds (known-finding class of C01)
+	tsSeconds bool    // generate BSON timestamps with non-zero seconds (known-finding class of C01)
 	poolPrev  []int64 // the int64 values of the previous pool document, by position (poolDoc)
+	poolPrev2 []int64 // ... and of the one before it
 }
 
 func newRng(seed uint64) *rng { return &rng{s: seed*0x9E3779B97F4A7C15 + 0x1234567} }
